@@ -26,6 +26,7 @@ def exactLen (s : ISrc) : Nat := (s.script.takeWhile fun r => match r with | .so
 def initialLen (s : ISrc) : Option Nat :=
   match s.hint with
   | .exact => some s.exactLen
+  | .fixed k => some k
   | _ => none
 
 /-- items are owned values whose drop is observable -/
